@@ -1,6 +1,16 @@
 """C02 translated BODIES (round 4): Python `ast` -> Lean (lean/Mouette/Generated/C02Bodies.lean), re-extracted on every run from
 $MOUETTE_REPO/mouette/mesh/mesh_data.py and data_container.py.
 
+Whitelist (round 5): CornerDataContainer.append, DataContainer.append (data_container.py); _complete_faces_from_cells,
+_complete_edges_from_faces, _prepare_vertices, _prepare_edges (validity test, rebuild loop through a fresh DataContainer with
+attribute handles kept in two dicts, in-place normalisation), _prepare_faces, _prepare_cells (over rows tagged with their Python
+container type), _generate_face_corners, _generate_cell_corners, _generate_cell_faces, and RawMeshData.__init__ (one conditional
+binding per container: `init_program`).  Additional forms for these: `any(<generator over the edges>)`, `DataContainer(id="edges")`,
+`d[k] = C.get_attribute(k)` / `d[k] = C.create_attribute(k, h.type, h.elemsize, dense=isinstance(h, ArrayAttribute),
+default_value=h._default_value)` (dicts of attribute HANDLES: the Lean value is the list of keys, a handle is (container, name)),
+`isinstance(h, ArrayAttribute)`, `i in h`, `h[i]`, `d[k][n] = v`, `self.edges = <container>`, `isinstance(row, np.ndarray)`,
+`row.tolist()`, `for a in self._attr.values(): a._expand(1)`.
+
 Every function on the whitelist is read IMPERATIVELY, statement by statement, and compiled to a state-passing Lean definition
 over the model's record `Raw` (= `self` of a RawMeshData; `VState` for `_prepare_vertices`, the pair (`_elem`, `_adj`) for
 `CornerDataContainer.append`).  Vocabulary and the meaning of every recognised Python operation: lean/Mouette/Model/PrepareSource.lean.
@@ -36,8 +46,11 @@ DC_FILE = "mouette/mesh/data_container.py"
 LEAN_TY = {"nat": "Nat", "int": "Int", "bool": "Bool", "str": "String", "row": "List Nat", "rows": "List (List Nat)",
            "edge": "Int × Int", "edges": "List (Int × Int)", "rowset": "List (List Nat)", "edgeset": "List (Int × Int)",
            "vrow": "VRow", "vrows": "List VRow", "facedict": "FaceDict", "optnat": "Option Nat", "handle": "String",
-           "raw": "Raw", "vstate": "VState", "cpair": "List Nat × List Nat", "optrows": "Option (List (List Nat))"}
-ELEM = {"rows": "row", "edges": "edge", "row": "nat", "vrows": "vrow", "rowset": "row", "edgeset": "edge"}
+           "raw": "Raw", "vstate": "VState", "cpair": "List Nat × List Nat", "optrows": "Option (List (List Nat))",
+           "dcont": "List α × List Attr", "any": "α", "rawr": "RawR", "rrow": "Row (List Nat)", "rrows": "List (Row (List Nat))",
+           "econt": "ECont", "strs": "List String", "hdict": "List String", "aval": "Int"}
+ELEM = {"rows": "row", "edges": "edge", "row": "nat", "vrows": "vrow", "rowset": "row", "edgeset": "edge", "rrows": "rrow",
+        "strs": "str", "hdict": "str"}
 # self.<container> of a RawMeshData -> (lean term, type)
 CONTAINERS = {"faces": ("s.faces", "rows"), "cells": ("s.cells", "rows"), "edges": ("s.edges", "edges")}
 CORNERS = {"face_corners": ("fcElem", "fcAdj"), "cell_corners": ("ccElem", "ccAdj"), "cell_faces": ("cfElem", "cfAdj")}
@@ -194,6 +207,7 @@ def prepared_body(fn):
 def _assigned(stmts):
     """names (re)bound by the statements, recursively; and whether the instance state is written"""
     names, state = [], False
+    nested = _assigned.nested = []
     for st in stmts:
         for n in ast.walk(st):
             if isinstance(n, ast.Name) and isinstance(n.ctx, ast.Store) and n.id not in names: names.append(n.id)
@@ -202,10 +216,15 @@ def _assigned(stmts):
                     b = t
                     while isinstance(b, (ast.Subscript, ast.Attribute)) and not _is_self(b): b = b.value
                     if _is_self(b): state = True
+                    if isinstance(t, ast.Subscript) and isinstance(t.value, ast.Subscript) and isinstance(t.value.value, ast.Name) \
+                            and t.value.value.id not in nested:
+                        nested.append(t.value.value.id)     # `d[k][i] = v`: writes the container the handles of d point into
                     if isinstance(t, ast.Subscript) and isinstance(t.value, ast.Name):
                         state = True            # an attribute handle (or a local dict: then threading the state is harmless)
                         if t.value.id not in names: names.append(t.value.id)
-            if isinstance(n, ast.Call) and isinstance(n.func, ast.Attribute) and n.func.attr == "create_attribute": state = True
+            if isinstance(n, ast.Call) and isinstance(n.func, ast.Attribute) and n.func.attr == "create_attribute":
+                state = True
+                if isinstance(n.func.value, ast.Name) and n.func.value.id not in names: names.append(n.func.value.id)   # a local container
             if isinstance(n, ast.Call) and isinstance(n.func, ast.Attribute) and n.func.attr in ("append", "add"):
                 b = n.func.value
                 if isinstance(b, ast.Name):
@@ -236,6 +255,8 @@ class Fn:
         self.nloop = 0
         self.corner_sig = corner_append_sig
         self.pending_types = self._first_types()
+        self.hd = {}             # dict of attribute handles -> ("self",) | ("local", <container variable>)
+        self.data_append = False # DataContainer.append was translated (then `X.append(v)` goes through it)
 
     def err(self, msg):
         raise TranslateError(f"{self.py}: {msg}")
@@ -269,6 +290,9 @@ class Fn:
             if self.state == "vstate":
                 if n.attr == "vertices": return "s.verts", "vrows"
                 self.err(f"self.{n.attr} read in a function about vertices only")
+            if self.state == "rawr":
+                if n.attr in ("faces", "cells"): return f"s.{n.attr}", "rrows"
+                self.err(f"self.{n.attr} read in a row-conversion function")
             if self.state == "raw":
                 if n.attr in CONTAINERS: return CONTAINERS[n.attr]
                 if n.attr == "vertices": return "s.verts", "rawverts"
@@ -279,6 +303,8 @@ class Fn:
                 return "s." + CORNERS[n.value.attr][0 if n.attr == "_elem" else 1], "row"
             if self.state == "cpair" and _is_self(n) and n.attr in ("_elem", "_adj"):
                 return ("c.1" if n.attr == "_elem" else "c.2"), "row"
+            if n.attr == "attributes" and _is_self(n.value, "edges") and self.state == "raw":
+                return "(s.eattrs.map (·.name))", "strs"
             e, t = self.ex(n.value)
             if t == "vrow" and n.attr in ("ndim", "size"): return f"{self.atom(e)}.{n.attr}", "nat"
             self.err(f"unsupported attribute {ast.unparse(n)}")
@@ -287,7 +313,13 @@ class Fn:
             if tv == "edge" and isinstance(n.slice, ast.Constant) and n.slice.value in (0, 1):
                 return f"{self.atom(v)}.{n.slice.value + 1}", "int"
             i, ti = self.ex(n.slice)
+            if tv == "hdict" and ti == "str":
+                return f"{self.hattrs(n.value.id)}|{i}", "ahandle"        # the attribute called <i> of the container the dict points into
             if ti != "nat": self.err(f"index of type {ti}")
+            if tv == "ahandle":
+                A, k = v.split("|")
+                return f"attrRead {A} {k} {self.atom(i)}", "aval"
+            if tv == "rrows": return f"rowGet {self.atom(v)} {self.atom(i)}", "rrow"
             if tv == "row": return f"getN {self.atom(v)} {self.atom(i)}", "nat"
             if tv == "vrows": return f"vget {self.atom(v)} {self.atom(i)}", "vrow"
             if tv == "edges": return f"edgeGet {self.atom(v)} {self.atom(i)}", "edge"
@@ -322,6 +354,10 @@ class Fn:
                     return (f"(!{r})" if neg else r), "bool"
                 k, tk = self.ex(a)
                 st, ts = self.ex(n.comparators[0])
+                if (ts, tk) == ("ahandle", "nat"):
+                    A, key = st.split("|")
+                    r = f"attrHas {A} {key} {self.atom(k)}"
+                    return (f"(!{r})" if neg else r), "bool"
                 if (ts, tk) not in (("rowset", "row"), ("edgeset", "edge")): self.err(f"membership of a {tk} in a {ts}")
                 r = f"(setHas {self.atom(st)} {self.atom(k)})"
                 return (f"(!{r})" if neg else r), "bool"
@@ -351,6 +387,12 @@ class Fn:
             return self.call(n)
         self.err(f"unsupported expression {ast.unparse(n)[:80]}")
 
+    def hattrs(self, d):
+        """Lean term of the attribute list the handles stored in dict `d` point into"""
+        h = self.hd.get(d)
+        if h is None: self.err(f"{d} is not a dict of attribute handles")
+        return "s.eattrs" if h[0] == "self" else f"{h[1]}.2"
+
     def atom(self, e):
         return e if (e.replace(".", "").replace("_", "").isalnum() or (e.startswith("(") and e.endswith(")")) or e.startswith('"')) else f"({e})"
 
@@ -379,14 +421,44 @@ class Fn:
         f = n.func
         txt = ast.unparse(f)
         args = n.args
-        if n.keywords and txt not in (): self.err(f"keyword arguments in {txt}(..)")
+        if n.keywords and txt not in ("DataContainer",): self.err(f"keyword arguments in {txt}(..)")
         if txt == "len" and len(args) == 1:
             a = args[0]
             if _is_self(a) and a.attr in CORNERS and self.state == "raw": return f"s.{CORNERS[a.attr][0]}.length", "nat"   # CornerDataContainer.__len__
             if _is_self(a) and a.attr == "vertices": return "s.verts.length", "nat"
             e, t = self.ex(a)
-            if t in ("row", "rows", "edges", "vrows"): return f"{self.atom(e)}.length", "nat"
+            if t in ("row", "rows", "edges", "vrows", "rrows"): return f"{self.atom(e)}.length", "nat"
             self.err(f"len of a {t}")
+        if txt == "isinstance" and len(args) == 2:
+            e, t = self.ex(args[0])
+            cls = ast.unparse(args[1])
+            if t == "rrow" and cls in ("np.ndarray", "numpy.ndarray"): return f"{self.atom(e)}.isNumpy", "bool"
+            if t == "ahandle" and cls == "ArrayAttribute":
+                A, k = e.split("|")
+                return f"attrIsDense {A} {k}", "bool"
+            self.err(f"isinstance of a {t} with {cls}")
+        if txt == "any" and len(args) == 1 and isinstance(args[0], (ast.GeneratorExp, ast.ListComp)):
+            g = args[0]
+            if len(g.generators) != 1 or g.generators[0].ifs: self.err("any(<generator>) with filters")
+            gen = g.generators[0]
+            it, ti = self.ex(gen.iter)
+            if ti != "edges" or not (isinstance(gen.target, ast.Tuple) and len(gen.target.elts) == 2 and all(isinstance(x, ast.Name) for x in gen.target.elts)):
+                self.err("any(.. for a, b in <edges>) expected")
+            names = [x.id for x in gen.target.elts]
+            saved = {x: self.env.get(x) for x in names}
+            for k, x in enumerate(names): self.env[x] = ("unpackedE", "e", k)
+            e, t = self.ex(g.elt)
+            for x in names:
+                if saved[x] is None: self.env.pop(x, None)
+                else: self.env[x] = saved[x]
+            if t != "bool": self.err("any of non-booleans")
+            return f"{self.atom(it)}.any (fun e => {e})", "bool"
+        if txt == "DataContainer" and not args and [k.arg for k in n.keywords] == ["id"] and ast.unparse(n.keywords[0].value) == "'edges'":
+            return "([], [])", "econt"
+        if isinstance(f, ast.Attribute) and f.attr == "tolist" and not args:
+            e, t = self.ex(f.value)
+            if t != "rrow": self.err(f"tolist of a {t}")
+            return f"{self.atom(e)}.tolist", "rrow"
         if txt == "range" and len(args) == 1:
             e, t = self.ex(args[0])
             if t != "nat": self.err("range of a non-integer")
@@ -453,7 +525,7 @@ class Fn:
 
     # -- state description -------------------------------------------------------------------------------------------------
     def svar(self):
-        return "c" if self.state == "cpair" else "s"
+        return "c" if self.state in ("cpair", "dcont") else "s"
 
     def ret(self, mut):
         return self.svar() if not mut else "(" + ", ".join([self.svar()] + mut) + ")"
@@ -505,6 +577,7 @@ class Fn:
                     return out
                 # a conditional in the middle: it returns what its branches rebind
                 names, state = _assigned(body + orelse)
+                names = names + [self.hd[b][1] for b in _assigned.nested if self.hd.get(b, ("",))[0] == "local" and self.hd[b][1] not in names]
                 carried = [x for x in names if x in self.env and self.env[x][0] not in ("unpacked", "unpackedE", "lambda")
                            and self.env[x][1] != "handle"]
                 fresh = self.maybe_unbound(st, rest)
@@ -586,6 +659,7 @@ class Fn:
         if t == "empty":
             t = self.lookahead_type(name)
             ann = f" : {LEAN_TY[t]}"
+        if t == "econt": ann = f" : {LEAN_TY[t]}"
         self.env[name] = (name, t)
         return [f"{ind}let {name}{ann} := {e}"]
 
@@ -597,6 +671,9 @@ class Fn:
                 if isinstance(v, ast.List) and v.elts and isinstance(v.elts[0], ast.Tuple): return "rows"
             if isinstance(n, ast.Assign) and isinstance(n.targets[0], ast.Subscript) and isinstance(n.targets[0].value, ast.Name) \
                     and n.targets[0].value.id == name:
+                v = n.value
+                if isinstance(v, ast.Call) and isinstance(v.func, ast.Attribute) and v.func.attr in ("get_attribute", "create_attribute"):
+                    return "hdict"
                 return "facedict"
         self.err(f"cannot type the empty literal bound to {name}")
 
@@ -633,8 +710,49 @@ class Fn:
                     and t.attr in ("_elem", "_adj") and isinstance(v, ast.List) and not v.elts:
                 fld = CORNERS[t.value.attr][0 if t.attr == "_elem" else 1]
                 return [f"{ind}let s := {{ s with {fld} := [] }}"]
+            if isinstance(t, ast.Attribute) and _is_self(t, "edges") and self.state == "raw" and isinstance(v, ast.Name):
+                e, ty = self.ex(v)
+                if ty != "econt": self.err("self.edges = <a fresh edge container> expected")
+                return [f"{ind}let s := {{ s with edges := {e}.1, eattrs := {e}.2 }}"]
+            if isinstance(t, ast.Subscript) and isinstance(t.value, ast.Subscript) and isinstance(t.value.value, ast.Name):
+                # `new_attrs[name][n] = old_attrs[name][ie]`
+                d = t.value.value.id
+                h = self.hd.get(d)
+                if h is None or h[0] != "local": self.err("write through a handle that does not point into a local container")
+                k, tk = self.ex(t.value.slice); i, ti = self.ex(t.slice); e, ty = self.ex(v)
+                if (tk, ti, ty) != ("str", "nat", "aval"): self.err("d[name][i] = <attribute value> expected")
+                return [f"{ind}let {h[1]} := econtAttrSet {h[1]} {k} {self.atom(i)} ({e})"]
+            if isinstance(t, ast.Subscript) and isinstance(t.value, ast.Name) and self.env.get(t.value.id, (None, None))[1] == "hdict":
+                d = t.value.id
+                k, tk = self.ex(t.slice)
+                if tk != "str" or not (isinstance(v, ast.Call) and isinstance(v.func, ast.Attribute)): self.err("d[name] = <handle> expected")
+                if v.func.attr == "get_attribute" and _is_self(v.func.value, "edges") and len(v.args) == 1 and not v.keywords \
+                        and self.ex(v.args[0]) == (k, "str"):
+                    self.hd[d] = ("self",)
+                    return [f"{ind}let {d} := {d} ++ [{k}]"]
+                if v.func.attr == "create_attribute" and isinstance(v.func.value, ast.Name) and self.env.get(v.func.value.id, (None, None))[1] == "econt":
+                    c = v.func.value.id
+                    kw = {x.arg: x.value for x in v.keywords}
+                    if len(v.args) != 3 or set(kw) != {"dense", "default_value"} or self.ex(v.args[0]) != (k, "str"):
+                        self.err("create_attribute(name, <type>, <elemsize>, dense=.., default_value=..) expected")
+                    hs = []
+                    for a, fld in ((v.args[1], "type"), (v.args[2], "elemsize"), (kw["default_value"], "_default_value")):
+                        if not (isinstance(a, ast.Attribute) and a.attr == fld): self.err(f"argument is not <old attribute>.{fld}")
+                        hs.append(self.ex(a.value))
+                    dn, tdn = self.ex(kw["dense"])
+                    if tdn != "bool" or any(t2 != "ahandle" for _, t2 in hs) or len({e2 for e2, _ in hs}) != 1:
+                        self.err("create_attribute arguments do not all read the same old attribute")
+                    A, key = hs[0][0].split("|")
+                    if key != k or dn != f"attrIsDense {A} {k}": self.err("the new attribute is not created from the old attribute of the same name")
+                    self.hd[d] = ("local", c)
+                    return [f"{ind}let {c} := econtCreate {c} {k} ({dn}) (attrDflt {A} {k})", f"{ind}let {d} := {d} ++ [{k}]"]
+                self.err(f"unsupported handle assignment {ast.unparse(st)[:80]}")
             if isinstance(t, ast.Subscript):
                 i, ti = self.ex(t.slice)
+                if _is_self(t.value) and t.value.attr in ("faces", "cells") and self.state == "rawr":
+                    e, ty = self.ex(v)
+                    if (ti, ty) != ("nat", "rrow"): self.err("self.faces[i] = <row> expected")
+                    return [f"{ind}let s := {{ s with {t.value.attr} := s.{t.value.attr}.set {self.atom(i)} {self.atom(e)} }}"]
                 if _is_self(t.value, "vertices") and self.state == "vstate":
                     e, ty = self.ex(v)
                     if (ti, ty) != ("nat", "vrow"): self.err("self.vertices[i] = v with i an index and v a row expected")
@@ -673,14 +791,26 @@ class Fn:
                     e, ty = self.ex(args[0])
                     if ty != "nat": self.err("append of a non-index")
                     return [f"{ind}let c := (c.1 ++ [{e}], c.2)" if f.value.attr == "_elem" else f"{ind}let c := (c.1, c.2 ++ [{e}])"]
+                if self.state == "dcont" and _is_self(f.value, "_data") and len(args) == 1:
+                    e, ty = self.ex(args[0])
+                    if ty != "any": self.err("append of something else than the parameter")
+                    return [f"{ind}let c := (c.1 ++ [{e}], c.2)"]
+                if not self.data_append and (_is_self(f.value, "faces") or _is_self(f.value, "edges") or isinstance(f.value, ast.Name)):
+                    self.err("DataContainer.append was not translated")
                 if _is_self(f.value, "faces") and len(args) == 1:
                     e, ty = self.ex(args[0])
                     if ty != "row": self.err(f"faces.append of a {ty}")
-                    return [f"{ind}let s := facesAppend s {self.atom(e)}"]
+                    # (attributes of the face container are not part of the model)
+                    return [f"{ind}let s := {{ s with faces := (dataAppend (s.faces, ([] : List Attr)) {self.atom(e)}).1 }}"]
                 if _is_self(f.value, "edges") and len(args) == 1:
                     e, ty = self.ex(args[0])
                     if ty != "edge": self.err(f"edges.append of a {ty}")
-                    return [f"{ind}let s := edgesAppend s {self.atom(e)}"]
+                    call = f"(dataAppend (s.edges, s.eattrs) {self.atom(e)})"
+                    return [f"{ind}let s := {{ s with edges := {call}.1, eattrs := {call}.2 }}"]
+                if isinstance(f.value, ast.Name) and self.env.get(f.value.id, (None, None))[1] == "econt" and len(args) == 1:
+                    e, ty = self.ex(args[0])
+                    if ty != "edge": self.err(f"append of a {ty} to an edge container")
+                    return [f"{ind}let {f.value.id} := dataAppend {f.value.id} {self.atom(e)}"]
                 if _is_self(f.value) and f.value.attr in ("face_corners", "cell_corners") and len(args) == 2:
                     if self.corner_sig is None: self.err("CornerDataContainer.append was not translated")
                     (a, ta), (b, tb) = self.ex(args[0]), self.ex(args[1])
@@ -699,6 +829,13 @@ class Fn:
                 e, ty = self.ex(args[0])
                 if b is None or (b[1], ty) not in (("rowset", "row"), ("edgeset", "edge")): self.err("set.add of a foreign key")
                 return [f"{ind}let {b[0]} := setAdd {b[0]} {self.atom(e)}"]
+        if isinstance(st, ast.For) and self.state == "dcont":
+            # `for attr in self._attr.values(): attr._expand(k)`
+            b = _strip(st.body)
+            if ast.unparse(st.iter) == "self._attr.values()" and isinstance(st.target, ast.Name) and len(b) == 1 and isinstance(b[0], ast.Expr) \
+                    and isinstance(b[0].value, ast.Call) and ast.unparse(b[0].value.func) == f"{st.target.id}._expand" \
+                    and len(b[0].value.args) == 1 and isinstance(b[0].value.args[0], ast.Constant) and isinstance(b[0].value.args[0].value, int):
+                return [f"{ind}let c := (c.1, c.2.map (expandAttr {b[0].value.args[0].value}))"]
         if isinstance(st, ast.For) and self.state == "cpair":
             # `for attr in self._attr.values(): attr._expand(1)`: attributes of corner containers are not part of the model
             if ast.unparse(st.iter) == "self._attr.values()" and len(st.body) == 1 and ast.unparse(st.body[0]).endswith("._expand(1)"):
@@ -707,9 +844,12 @@ class Fn:
 
     def loop(self, st, mut, ind):
         if st.orelse: self.err("for/else")
-        if self.state == "cpair":
+        if self.state in ("cpair", "dcont"):
             return self.simple(st, ind)
-        it, ti = self.ex(st.iter)
+        if isinstance(st.iter, ast.Name) and self.env.get(st.iter.id, (None, None))[1] == "hdict":
+            it, ti = st.iter.id, "hdict"            # iterating a dict of handles: its keys, in insertion order
+        else:
+            it, ti = self.ex(st.iter)
         self.nloop += 1
         k = self.nloop
         name = f"{self.lean}_loop{k}"
@@ -731,6 +871,7 @@ class Fn:
             self.env[var] = (var, ELEM[ti])
             bound = [var]
         names, _ = _assigned(body)
+        names = names + [self.hd[b][1] for b in _assigned.nested if self.hd.get(b, ("",))[0] == "local" and self.hd[b][1] not in names]
         carried = [x for x in names if x in saved and saved[x][0] not in ("unpacked", "unpackedE", "lambda") and x not in bound
                    and saved[x][1] != "handle"]
         reads = [x for x in _reads(body) if x in saved and x not in carried and x not in bound]
@@ -773,11 +914,11 @@ class Fn:
     def compile(self):
         body = _strip(self.fn.body)
         sv = self.svar()
-        ptypes = {"cpair": ["nat", "nat"]}.get(self.state, [])
+        ptypes = {"cpair": ["nat", "nat"], "dcont": ["any"]}.get(self.state, [])
         if len(self.params) != len(ptypes): self.err(f"unexpected parameters {self.params}")
         for p, t in zip(self.params, ptypes): self.env[p] = (p, t)
         lines = self.block(body, self.ret([]), "  ", False)
-        sig = f"def {self.lean} ({sv} : {LEAN_TY[self.state]})" + "".join(f" ({p} : {LEAN_TY[t]})" for p, t in zip(self.params, ptypes)) + f" : {LEAN_TY[self.state]} :="
+        sig = f"def {self.lean}{' {α : Type}' if self.state == 'dcont' else ''} ({sv} : {LEAN_TY[self.state]})" + "".join(f" ({p} : {LEAN_TY[t]})" for p, t in zip(self.params, ptypes)) + f" : {LEAN_TY[self.state]} :="
         return "\n".join(self.defs + [f"/-- `{self.py}` -/\n{sig}\n" + "\n".join(lines) + "\n"])
 
 
@@ -787,17 +928,92 @@ class Fn:
 FUNCTIONS = [
     # (file, qualified python name, lean name, state)
     (DC_FILE, "CornerDataContainer.append", "cornerAppend", "cpair"),
+    (DC_FILE, "DataContainer.append", "dataAppend", "dcont"),
     (MD_FILE, "RawMeshData._complete_faces_from_cells", "completeFaces", "raw"),
     (MD_FILE, "RawMeshData._complete_edges_from_faces", "completeEdges", "raw"),
     (MD_FILE, "RawMeshData._prepare_vertices", "prepareVertices", "vstate"),
     (MD_FILE, "RawMeshData._generate_face_corners", "genFaceCorners", "raw"),
     (MD_FILE, "RawMeshData._generate_cell_corners", "genCellCorners", "raw"),
     (MD_FILE, "RawMeshData._generate_cell_faces", "genCellFaces", "raw"),
+    (MD_FILE, "RawMeshData._prepare_faces", "prepareFaces", "rawr"),
+    (MD_FILE, "RawMeshData._prepare_cells", "prepareCells", "rawr"),
+    (MD_FILE, "RawMeshData._prepare_edges", "prepareEdges", "raw"),
 ]
+
+# ------------------------------------------------------------------------------------------------------------------
+# RawMeshData.__init__ (fresh containers / re-wrap of a mesh object): a list of conditional bindings, read one by one
+# ------------------------------------------------------------------------------------------------------------------
+INIT_FIELDS = {"vertices": ("data", ["verts"]), "edges": ("data", ["edges", "eattrs"]), "faces": ("data", ["faces"]),
+               "cells": ("data", ["cells"]), "face_corners": ("corner", ["fcElem", "fcAdj"]),
+               "cell_corners": ("corner", ["ccElem", "ccAdj"]), "cell_faces": ("corner", ["cfElem", "cfAdj"])}
+
+
+def init_program(tree):
+    fn = T.find_def(tree, "RawMeshData.__init__")
+    fn = Norm().visit(copy.deepcopy(fn)); ast.fix_missing_locations(fn)
+    params = [a.arg for a in fn.args.args]
+    if len(params) != 2 or [ast.unparse(d) for d in fn.args.defaults] != ["None"]:
+        raise TranslateError("RawMeshData.__init__ is not `__init__(self, mesh=None)`")
+    m = params[1]
+    fields, prepared = {}, None
+    for st in _strip(fn.body):
+        if not (isinstance(st, ast.Assign) and len(st.targets) == 1 and _is_self(st.targets[0])):
+            raise TranslateError(f"__init__: unrecognised statement {ast.unparse(st)[:80]}")
+        x, v = st.targets[0].attr, st.value
+        if x == "_dimensionality" and isinstance(v, ast.Constant) and v.value is None: continue      # a cache, recomputed by prepare()
+        if x == "_prepared" and isinstance(v, ast.Constant) and isinstance(v.value, bool):
+            prepared = v.value; continue
+        if x not in INIT_FIELDS or not isinstance(v, ast.IfExp):
+            raise TranslateError(f"__init__: unrecognised binding of self.{x}")
+        kind, flds = INIT_FIELDS[x]
+        # fresh container when the test holds
+        fresh = v.body
+        want = "DataContainer" if kind == "data" else "CornerDataContainer"
+        if not (isinstance(fresh, ast.Call) and ast.unparse(fresh.func) == want and not fresh.args and all(k.arg == "id" for k in fresh.keywords)):
+            raise TranslateError(f"__init__: self.{x} is not a fresh empty {want} when there is no mesh")
+        # the test: `mesh is None` [or not hasattr(mesh, "<name>")]
+        t = v.test
+        parts = list(t.values) if isinstance(t, ast.BoolOp) and isinstance(t.op, ast.Or) else [t]
+        parts.sort(key=lambda q: 0 if ast.unparse(q) == f"{m} is None" else 1)     # `A or B` = `B or A` for these two side-effect-free tests
+        if ast.unparse(parts[0]) != f"{m} is None": raise TranslateError(f"__init__: test of self.{x} does not contain `{m} is None`")
+        has = None
+        if len(parts) == 2:
+            q = parts[1]
+            if not (isinstance(q, ast.UnaryOp) and isinstance(q.op, ast.Not) and isinstance(q.operand, ast.Call) and ast.unparse(q.operand.func) == "hasattr"
+                    and len(q.operand.args) == 2 and ast.unparse(q.operand.args[0]) == m and isinstance(q.operand.args[1], ast.Constant)):
+                raise TranslateError(f"__init__: second test of self.{x} is not `not hasattr({m}, <name>)`")
+            has = q.operand.args[1].value
+        elif len(parts) != 1:
+            raise TranslateError(f"__init__: test of self.{x} not recognised")
+        src = v.orelse
+        if not (isinstance(src, ast.Attribute) and isinstance(src.value, ast.Name) and src.value.id == m and src.attr in INIT_FIELDS):
+            raise TranslateError(f"__init__: self.{x} is not taken from an attribute of the mesh")
+        skind, sflds = INIT_FIELDS[src.attr]
+        if skind != kind: raise TranslateError(f"__init__: self.{x} is bound to {m}.{src.attr}, a container of another kind")
+        sflds = (sflds + ["eattrs"])[:len(flds)] if kind == "data" and len(flds) > len(sflds) else sflds[:len(flds)]
+        if x in fields: raise TranslateError(f"__init__: self.{x} bound twice")
+        fields[x] = (has, src.attr, list(zip(flds, sflds)))
+    if prepared is None or set(fields) != set(INIT_FIELDS):
+        raise TranslateError("__init__: a container or `self._prepared = <bool>` is missing")
+    rows = []
+    for x in INIT_FIELDS:
+        has, src, pairs = fields[x]
+        for tf, sf in pairs:
+            if sf == "eattrs" and src != "edges": val = "[]"          # only the edge container carries modelled attributes
+            else: val = f"m.{sf}"
+            rows.append(f"    {tf} := {val}" if has is None else f"    {tf} := if has \"{has}\" then {val} else []")
+    txt = ("/-- `RawMeshData.__init__(mesh)` for a mesh object: `has n` = `hasattr(mesh, n)`, `m` = the containers the mesh holds -/\n"
+           "def initFromMesh (has : String → Bool) (m : Raw) : Raw :=\n  {\n" + ",\n".join(rows) + f",\n    prepared := {'true' if prepared else 'false'} }}\n\n"
+           "/-- `RawMeshData()`: every container fresh and empty -/\n"
+           f"def initFresh : Raw := {{ prepared := {'true' if prepared else 'false'} }}\n")
+    return txt
+
 
 # what is emitted for a function whose body is not recognised (so that the other bridges still compile and only this one breaks)
 STUB = {"cpair": "def {lean} (c : List Nat × List Nat) (a0 : Nat) (a1 : Nat) : List Nat × List Nat := c\n",
-        "raw": "def {lean} (s : Raw) : Raw := s\n", "vstate": "def {lean} (s : VState) : VState := s\n"}
+        "raw": "def {lean} (s : Raw) : Raw := s\n", "vstate": "def {lean} (s : VState) : VState := s\n",
+        "rawr": "def {lean} (s : RawR) : RawR := s\n",
+        "dcont": "def {lean} {{α : Type}} (c : List α × List Attr) (a0 : α) : List α × List Attr := c\n"}
 
 
 def _check_id_props(tree):
@@ -831,10 +1047,12 @@ def translate_bodies():
     rec = T.site("mesh_data.py:id_* properties, data_container.py:CornerDataContainer.__len__ (meaning of the normalised spellings)", pre)
     sites.append(rec)
     corner_ok = False
+    data_ok = [False]
     for f, py, lean, state in FUNCTIONS:
         def one(f=f, py=py, lean=lean, state=state):
             fn = T.find_def(tree(f), py)
             c = Fn(py, lean, fn, state, corner_append_sig=True if corner_ok else None)
+            c.data_append = data_ok[0]
             txt = c.compile()
             return txt
         rec = T.site(f"{f.split('/')[-1]}:{py.split('.')[-1]} (body, statement by statement)", one)
@@ -842,10 +1060,18 @@ def translate_bodies():
             chunks.append(rec["detail"])
             rec["detail"] = {"lean": f"Generated.C02B.{lean}", "lines": rec["detail"].count("\n")}
             if lean == "cornerAppend": corner_ok = True
+            if lean == "dataAppend": data_ok[0] = True
         else:
             chunks.append(f"/-- `{py}`: NOT TRANSLATED ({rec['detail'][:200]}) -/\n" + STUB[state].format(lean=lean))
         sites.append(rec)
-    body = ("import Mouette.Model.PrepareSource\nset_option linter.unusedVariables false\nnamespace Mouette.Generated.C02B\n"
+    rec = T.site("mesh_data.py:__init__ (fresh containers / containers of the wrapped mesh, one binding per container)",
+                 lambda: init_program(tree(MD_FILE)))
+    if rec["ok"]:
+        chunks.append(rec["detail"]); rec["detail"] = {"lean": "Generated.C02B.initFromMesh, initFresh"}
+    else:
+        chunks.append(f"/-- `RawMeshData.__init__`: NOT TRANSLATED ({rec['detail'][:200]}) -/\ndef initNotTranslated : Unit := ()\n")
+    sites.append(rec)
+    body = ("import Mouette.Model.PrepareSource\nimport Mouette.Lemmas.C02Rows\nset_option linter.unusedVariables false\nnamespace Mouette.Generated.C02B\n"
             "open Mouette.Prepare Mouette.PrepSrc\n\n" + "\n".join(chunks) + "\nend Mouette.Generated.C02B\n")
     T.write_generated("C02Bodies", body)
     return sites
